@@ -62,8 +62,8 @@ def F(key, t, o=None):
     return {"key": key, "t": t, "o": o}
 
 
-def E(fs, tag=None):
-    return {"emb": True, "tag": tag, "f": list(fs)}
+def E(fs, tag=None, eopt=False, eptr=False):
+    return {"emb": True, "tag": tag, "f": list(fs), "eopt": eopt, "eptr": eptr}
 
 
 def R(s):
@@ -149,7 +149,7 @@ def cfields(fs):
     s = "FNil"
     for f in reversed(fs):
         if f.get("emb"):
-            s = "(FEmbed false false %s %s)" % (cfields(f["f"]), s)
+            s = "(FEmbed %s %s %s %s)" % (cbool(f.get("eopt", False)), cbool(f.get("eptr", False)), cfields(f["f"]), s)
         else:
             s = "(FCons %s %s %s %s)" % (cstr(f["key"]), copts(f["o"]), ctype(f["t"]), s)
     return s
@@ -555,6 +555,8 @@ class Gen:
             o["range"] = R(rng.choice(["[0:100]", "(0:10]", "[1:)", "(:50)", "[5:5]"]))
             if o["def"] is not None:
                 o["def"] = "5"
+        if k in FLOAT_KINDS and rng.random() < 0.3:
+            o["range"] = R(rng.choice(["[0:100]", "(0.25:2500]", "[1.5:)", "(:0.5)", "[1.5:1.5]", "[-4:1e-7]"]))
         if k == "string" and rng.random() < 0.2:
             o["options"] = ["dev", "test", "prod"]
             if o["def"] is not None:
@@ -569,7 +571,11 @@ class Gen:
             if allow_embed and rng.random() < 0.15:
                 inner = self.gen_fields(depth, plain, rng.randint(1, 2), allow_embed=rng.random() < 0.3, used=used)
                 if inner:
-                    fs.append(E(inner))
+                    eopt = (not plain) and rng.random() < 0.3
+                    # an embedded struct nested in an optional one is never set: keep optional ones flat
+                    if eopt and any(x.get("emb") for x in inner):
+                        eopt = False
+                    fs.append(E(inner, eopt=eopt, eptr=(not plain) and rng.random() < 0.25))
                 continue
             cands = [k for k in KEY_POOL if k.lower() not in used]
             if not cands:
@@ -911,7 +917,13 @@ class C17(Property):
                                             cob(obs.get("stdjson")))
         d2 = case.get("doc2")
         env = case.get("env")
-        return "CaseLoad %s %s %s %s %s %s %s %s %s %s %s" % (
+        ex = "None"
+        if obs.get("byext") is not None:
+            ex = "(Some (mkExtra %s %s %s))" % (
+                clist(["(%s, %s)" % (cstr(e), cob(r)) for e, r in sorted(obs["byext"].items())]),
+                clist(["(%s, %s)" % (cstr(e), cob(r)) for e, r in sorted((obs.get("must") or {}).items())]),
+                cob(obs.get("fill")))
+        return "CaseLoad %s %s %s %s %s %s %s %s %s %s %s %s" % (
             cfields(case["type"]), cdoc(case["doc"]),
             copt(cdoc(d2) if d2 else None),
             copt(clist(["(%s, %s)" % (cstr(k), cstr(v)) for k, v in sorted(env.items())]) if env is not None else None),
@@ -921,7 +933,7 @@ class C17(Property):
             cob3(obs.get("load") or {}),
             copt(cob3(obs["load2"]) if obs.get("load2") else None),
             copt(cob3(obs["envon"]) if obs.get("envon") else None),
-            copt(cob3(obs["envoff"]) if obs.get("envoff") else None))
+            copt(cob3(obs["envoff"]) if obs.get("envoff") else None), ex)
 
     # ---- reporting
     def known(self, case, obs):
